@@ -193,7 +193,7 @@ def random_histories(res, wd, drv, tier):
         if not j.complete or not j.header.startswith("seq d3"):
             continue
         ops = [e for e in j.events if e["e"] in ("ins", "erase")]
-        if len(events) + len(ops) > (4000 if tier == "quick" else 60000):
+        if len(events) + len(ops) > (2500 if tier == "quick" else 40000):
             break
         events.append({"op": "reset"})
         for n, (e, sh) in enumerate(zip(ops, j.shapes)):
